@@ -316,7 +316,8 @@ def coverage_counts(out):
 # Record-set validation (pure functions): every record is one TLC initial state.
 
 NB_SEEDS = 64   # bucket seeds in the *Rec modules (see RInit there)
-_RE_BAD = re.compile(r'<<"BADREC", (\d+), "([^"]*)"')
+# NB: TLC pretty-prints long tuples over several lines ("<< "BADREC",\n   1,\n   "clause" >>"): whitespace tolerant
+_RE_BAD = re.compile(r'<<\s*"BADREC",\s*(\d+),\s*"([^"]*)"')
 
 
 def validate_records(ctx, module, records, cfgname=None, constants=None, invariant='RecOK',
@@ -342,8 +343,12 @@ def validate_records(ctx, module, records, cfgname=None, constants=None, invaria
             tail = '\n'.join(res['out'].splitlines()[-40:])
             raise MachineryError('record validation %s: rc=%s distinct=%s expected=%s\n%s' % (
                 module, res['rc'], res['distinct'], len(part) + NB_SEEDS, tail))
+        nm = 0
         for m in _RE_BAD.finditer(res['out']):
             bad.append((part[int(m.group(1)) - 1], m.group(2)))
+            nm += 1
+        if nm != res['out'].count('"BADREC"'):
+            raise MachineryError('record validation %s: %d BADREC lines printed but %d parsed' % (module, res['out'].count('"BADREC"'), nm))
         nrec += len(part)
         os.unlink(fn)
     ctx.cov['traces_validated_against_impl'] += nrec
@@ -354,8 +359,8 @@ def validate_records(ctx, module, records, cfgname=None, constants=None, invaria
 # ---------------------------------------------------------------------------
 # Batch trace validation (stateful): traces = list of event lists
 
-_RE_FAIL = re.compile(r'<<"FAILCLAUSE", (\d+), (\d+), "([^"]*)"')
-_RE_REJ = re.compile(r'<<"REJECTED", (\d+), (\d+)>>')
+_RE_FAIL = re.compile(r'<<\s*"FAILCLAUSE",\s*(\d+),\s*(\d+),\s*"([^"]*)"')
+_RE_REJ = re.compile(r'<<\s*"REJECTED",\s*(\d+),\s*(\d+)\s*>>')
 
 
 def validate_traces(ctx, module, traces, constants=None, name=None, spec='TraceSpec', chunk=4000,
@@ -380,6 +385,8 @@ def validate_traces(ctx, module, traces, constants=None, name=None, spec='TraceS
         if res['error'] or res['rc'] not in (0, 1, 12, 13) or 'TRACESUMMARY' not in res['out']:
             tail = '\n'.join(res['out'].splitlines()[-40:])
             raise MachineryError('trace validation %s failed to run: rc=%s\n%s' % (module, res['rc'], tail))
+        if len(_RE_FAIL.findall(res['out'])) != res['out'].count('"FAILCLAUSE"') or len(_RE_REJ.findall(res['out'])) != res['out'].count('"REJECTED"'):
+            raise MachineryError('trace validation %s: could not parse every FAILCLAUSE / REJECTED line' % module)
         fails = {}
         for m in _RE_FAIL.finditer(res['out']):
             fails.setdefault(int(m.group(1)), []).append((int(m.group(2)), m.group(3)))
